@@ -51,6 +51,8 @@ def generate(prop, seed, tier):
         G.add_unproductive_cycle(spec, g)
     if g.random() < 0.3:
         G.constant_factors(spec, g)
+    if g.random() < 0.1:
+        spec = G.ring_chord_spec(g, 'small')
     cfgs = []
     for _ in range(g.randrange(6, 10)):
         sem = g.choice(['real', 'real', 'real', 'log', 'log', 'viterbi', 'bool'])
